@@ -103,6 +103,10 @@ def gen_grid(rng, kind, N):
         return {'kind': 'data', 'nz': [0.0] + [p / 16.0 for p in pts] + [1.0]}
     if kind == 'free':
         return {'kind': 'free'}
+    if kind == 'density_poly':
+        return {'kind': 'density_poly', 'coef': [rng.choice([0.5, 1, 2]), rng.choice([0, 1, 3]), rng.choice([0, 2, 6])]}
+    if kind == 'dense_edges':
+        return {'kind': 'dense_edges', 'multiplier': rng.choice([2, 5, 10, 20]), 'edge_frac': rng.choice([0.1, 0.2, 0.3])}
     if kind == 'uniform_locT':
         return {'kind': 'uniform', 'localize_T': True}
     if kind == 'uniform_locT0':
